@@ -132,7 +132,10 @@ def check_response(res, api, options, naming, rec):
         want = sorted(_norm_mod(re.sub(r"[^A-Za-z0-9_]", "_", snake(b))) for b in bases)
         have = sorted(_norm_mod(g) for g in got)
         extra_ok = [g for g in have if g not in want]
-        missing = [w for w in want if w not in have]
+        missing = list(want)
+        for h in have:
+            if h in missing:
+                missing.remove(h)
         if missing:
             raise V("types-module-missing", f"{tdir}: proto files {bases} but types modules {got}")
     all_file_bases = {_norm_mod(re.sub(r"[^A-Za-z0-9_]", "_", snake(x["name"].rsplit("/", 1)[-1][:-6]))) for x in targets}
